@@ -3,7 +3,7 @@ import HpoModel.Compare
 /-! Lemmas about the comparison model (`HpoModel/Compare.lean`); core Lean only. -/
 namespace Hpo
 
-theorem getR_id {rs : List Rec} {i : Nat} {r : Rec} (h : getR rs i = some r) : r.id = i := by
+theorem getR_id_s {rs : List Rec} {i : Nat} {r : Rec} (h : getR rs i = some r) : r.id = i := by
   induction rs with
   | nil => simp [getR] at h
   | cons a rs ih =>
@@ -12,7 +12,7 @@ theorem getR_id {rs : List Rec} {i : Nat} {r : Rec} (h : getR rs i = some r) : r
     · cases h; assumption
     · exact ih h
 
-theorem getR_mem {rs : List Rec} {i : Nat} {r : Rec} (h : getR rs i = some r) : r ∈ rs := by
+theorem getR_mem_s {rs : List Rec} {i : Nat} {r : Rec} (h : getR rs i = some r) : r ∈ rs := by
   induction rs with
   | nil => simp [getR] at h
   | cons a rs ih =>
@@ -33,7 +33,7 @@ theorem getT_eq_none {ts : List Term} {i : Nat} : getT ts i = none ↔ i ∉ ts.
       · intro h'; exact ⟨fun e => h e.symm, h'⟩
       · intro h'; exact h'.2
 
-theorem getR_eq_none {rs : List Rec} {i : Nat} : getR rs i = none ↔ i ∉ rs.map (·.id) := by
+theorem getR_eq_none_s {rs : List Rec} {i : Nat} : getR rs i = none ↔ i ∉ rs.map (·.id) := by
   induction rs with
   | nil => simp [getR]
   | cons a rs ih =>
@@ -61,7 +61,7 @@ theorem Onto.resolve_ids {o : Onto} {l : List Nat} {ts : List Term} (h : o.resol
       | some ts' =>
         simp only [hr, Option.map_some, Option.some.injEq] at h
         subst h
-        simp [ih hr, Onto.get_id hg]
+        simp [ih hr, Onto.get_id_s hg]
 
 namespace Compare
 open Group
@@ -161,7 +161,7 @@ theorem changedFold_ok (l r : Onto) (hr : ParentsResolve r) (ts : List Term)
         · rw [hg] at h2; cases h2
         · exact ⟨tl, h1, tr, h2, h3⟩
     | some tr =>
-      have htd := termDelta_ok (l := l) (r := r) (hl a (by simp)) (hr tr (Onto.get_mem hg))
+      have htd := termDelta_ok (l := l) (r := r) (hl a (by simp)) (hr tr (Onto.get_mem_s hg))
       by_cases hd : (delta l r a tr).differs = true
       · refine ⟨delta l r a tr :: ds, by simp [changedFold, hg, htd, hd, hds], ?_⟩
         intro d
